@@ -840,7 +840,7 @@ class MathProxy(types.ModuleType):
         return getattr(self._base, name)
 
 
-FLOAT_PI_MODULES = {"strawberryfields.ops", "strawberryfields.program_utils", "strawberryfields.compilers.compiler", "strawberryfields.program",
+FLOAT_PI_MODULES = {"strawberryfields.ops", "strawberryfields.decompositions", "strawberryfields.program_utils", "strawberryfields.compilers.compiler", "strawberryfields.program",
                     "strawberryfields.tdm.program", "strawberryfields.compilers.tdm"}
 
 
